@@ -36,8 +36,10 @@ def run(res, replay=None):
         cases = [replay['replay']['case']]
     else:
         for i in range(ncase):
-            s = gen.rand_spec(rng, n_total=rng.choice([2, 3, 3, 4] if res.tier == 'quick' else [3, 4, 4, 5]),
-                              n_demes=rng.choice([1, 1, 2]), n_epochs=1, end_time='never')
+            nt_, nd_ = rng.choice([2, 3, 3, 4] if res.tier == 'quick' else [3, 4, 4, 5]), rng.choice([1, 1, 2])
+            # cost cap: the exact-rational inverse of the model on the block-counting space of 5 samples in two demes does not finish within
+            # the 30-minute budget of one case (thorough tier, seed 1: two '[timeout]' model evaluations) - two demes go up to n = 4
+            s = gen.rand_spec(rng, n_total=min(nt_, 4) if nd_ == 2 else nt_, n_demes=nd_, n_epochs=1, end_time='never')
             if s['model']['kind'] == 'beta' and (len(s['n_items']) > 1 or gen.effective_n(s) > 3):
                 # the scaled Beta time scale is a 53-bit rational: the exact-rational inverse of the model then takes minutes on
                 # the larger block-counting spaces (the time scale itself is the subject of C14, not of this property)
